@@ -203,7 +203,7 @@ func c11(ctx *core.Ctx) {
 		c := newC11Container(router, options)
 		nops := r.Range(4, 20)
 		// every 6th history: a plain handler may sit on "/" itself; such a history adds no root-mapped WebService
-		plainRoot := hi%6 == 5
+		plainRoot := hi%12 == 5 || hi%12 == 10
 		var opsLog []string
 		ctx.Case(hi, fmt.Sprintf("router=%s options=%v", router, options))
 		probes := m.probes()
